@@ -178,7 +178,8 @@ func flipBy(s string, flips []bool) string {
 	return string(b)
 }
 
-var dotStyles = [][2]string{{".", ".."}, {"%2e", "%2e%2e"}, {"%2E", ".%2E"}, {"%252e", "%252e%252E"}, {"%2E", "%2e."}}
+// (index 3 is the nested spelling; see usesNestedDots)
+var dotStyles = [][2]string{{".", ".."}, {"%2e", "%2e%2e"}, {"%2E", ".%2E"}, {"%252e", "%252e%252E"}, {"%2E", "%2e."}, {"%2e", "%2e%2E"}, {"%2E", "%2E%2e"}, {"%2E", "%2E%2E"}, {".", "%2E."}}
 
 // Render writes the URL in the given spelling. maxDepth limits the percent-encoding depth (0 for
 // profiles that do not decode); dotMaxStyle limits how dot segments may be spelled (2 = literal and
@@ -408,7 +409,7 @@ func GenSpelling(t *rapid.T, label string, rich bool) Spelling {
 	}
 	nd := rapid.IntRange(0, 2).Draw(t, label+".ndots")
 	for i := 0; i < nd; i++ {
-		sp.Dots = append(sp.Dots, DotIns{Pos: rapid.IntRange(0, 5).Draw(t, label+".dotpos"), Kind: rapid.IntRange(0, 1).Draw(t, label+".dotkind"), Style: rapid.IntRange(0, 4).Draw(t, label+".dotstyle")})
+		sp.Dots = append(sp.Dots, DotIns{Pos: rapid.IntRange(0, 5).Draw(t, label+".dotpos"), Kind: rapid.IntRange(0, 1).Draw(t, label+".dotkind"), Style: rapid.IntRange(0, len(dotStyles)-1).Draw(t, label+".dotstyle")})
 	}
 	nt := rapid.IntRange(0, 2).Draw(t, label+".ntab")
 	for i := 0; i < nt; i++ {
